@@ -279,7 +279,8 @@ def _write_mc_cfg(ctx: Ctx, name: str, **kw: str) -> str:
 def _model_check(ctx: Ctx) -> None:
     runs = [("async, seed replies at requested position, 3 ops x 2 SDs x 2 L0 x 3 positions", {}),
             ("sync+async, seed or public-key replies, later positions, 2 ops, 2 root keys",
-             dict(Ops="MC_Ops2", RootKeys="MC_Rk2", ReplyKinds="MC_Both", LaterReplies="TRUE", SyncFlavours="MC_SyncAsync", Positions="MC_Pos5"))]
+             dict(Ops="MC_Ops2", RootKeys="MC_Rk2", ReplyKinds="MC_Both", LaterReplies="TRUE", SyncFlavours="MC_SyncAsync", Positions="MC_Pos5",
+                  **({} if ctx.thorough else {"SDs": "MC_SD1"})))]
     if ctx.thorough:
         runs.append(("async, later replies, 3 ops, 5 positions, 1 SD", dict(SDs="MC_SD1", LaterReplies="TRUE", Positions="MC_Pos5")))
     for k, (what, kw) in enumerate(runs):
@@ -341,7 +342,7 @@ def _emit_behaviours(ctx: Ctx, n: int) -> list[tuple[tuple[int, int], list]]:
     ctx.cov["states"] += r.distinct
     ctx.cov["transitions"] += r.generated
     if not ctx.thorough:
-        conc = ctx.rng.sample(conc, min(len(conc), 420))
+        conc = ctx.rng.sample(conc, min(len(conc), 330))
     out = [((10, 0), h) for h in conc] + out
     seen = set()
     uniq = []
@@ -442,7 +443,7 @@ def run(ctx: Ctx) -> int:
     emitted = _emit_behaviours(ctx, ctx.pick(1200, 12000))
     emitted = emitted[: ctx.pick(900, 9000)]
     rows = _run_histories(ctx, emitted, 0, "tlc-behaviour")
-    rnd = _random_histories(ctx, ctx.pick(400, 6000))
+    rnd = _random_histories(ctx, ctx.pick(320, 6000))
     rows += _run_histories(ctx, rnd, 1_000_000, "random-driver")
     ctx.count(len(rows))
     slim = [{k: r[k] for k in ("id", "now", "defrk", "events")} for r in rows]
